@@ -28,8 +28,15 @@ def cells(tier):
         for k0 in range(K):
             sym = [('k%d' % i, 'int') for i in range(n)]
             pre = ['k0 == %d' % k0] + ['0 <= k%d < %d' % (i, K) for i in range(1, n)]
+            # the concrete anchor of each cell puts a non-UTF-8 / unreadable file next to the first one
+            ex = {'k%d' % i: [k0, FILE_KINDS.index('latin1-roStoryDelete'), FILE_KINDS.index('binary-junk')][i] for i in range(n)}
+            if k0 % 3 == 1:
+                ex['k1'] = FILE_KINDS.index('binary-junk')
+            if k0 % 3 == 2:
+                ex['k1'] = FILE_KINDS.index('directory')
             out.append(Cell(pid=PID, cid='C19/%s/first-%s/n%d' % (cmd, FILE_KINDS[k0], n), harness='h_collect:cli_list_cell',
-                            params={'cmd': cmd, 'n': n}, sym=sym, pre=pre, stubs=('hash',), timeout=T, cost=K ** (n - 1)))
+                            params={'cmd': cmd, 'n': n}, sym=sym, pre=pre, stubs=('hash',), timeout=T, cost=K ** (n - 1),
+                            example=ex))
     for scen in SCENARIOS:
         for outmode in ('stdout', 'file'):
             out.append(Cell(pid=PID, cid='C19/merge/%s/%s' % (scen, outmode), harness='h_collect:cli_merge_cell',
